@@ -727,6 +727,64 @@ func RunC12(run *vk.Run) {
 			}
 		}
 	}
+	// the Cloud KMS key manager (keys/gcpkms over the repository's KMS fake): a rotation whose final
+	// destruction of the old key version is refused by the service, then another rotation -- the key version
+	// that becomes primary is a new one (names are not reused), and the certificates on record for the
+	// earlier key versions are the ones issued for them
+	for _, caKind := range []string{"memca", "gcsca"} {
+		a, err := NewAuthority(Combo{"gcpkms", caKind})
+		if err != nil {
+			run.Infra(err)
+			return
+		}
+		primary := func() string {
+			kc, err := a.Loaded()
+			if err != nil {
+				return ""
+			}
+			p, _ := kc.CA.PrimarySigningKeyVersion(fxCtx())
+			return p
+		}
+		certOf := func(name string) []byte {
+			kc, err := a.Loaded()
+			if err != nil {
+				return nil
+			}
+			b, _ := kc.CA.Certificate(fxCtx(), name)
+			return b
+		}
+		if err := a.Exec(&Tap{}, "bootstrap", "--timestamp", ts(T0)); err != nil {
+			run.Infra(fmt.Errorf("gcpkms bootstrap: %v", err))
+			a.Close()
+			return
+		}
+		p0 := primary()
+		r1 := a.Exec(&Tap{FailName: "Manager.DestroyKeyVersion"}, "rotate", "--timestamp", ts(Tn(1)))
+		p1 := primary()
+		names1, _ := a.KeyNames()
+		certs1 := map[string][]byte{}
+		for _, n := range []string{p0, p1} {
+			certs1[n] = certOf(n)
+		}
+		r2 := a.Exec(&Tap{}, "rotate", "--timestamp", ts(Tn(2)))
+		p2 := primary()
+		run.Case("gcpkms-destroy-refused|"+caKind, true)
+		if r2 == nil && p2 != p1 {
+			for _, n := range names1 {
+				if n == p2 {
+					run.Violation("name-reuse:gcpkms:after-refused-destroy", fmt.Sprintf("Cloud KMS key manager with %s: after a rotation whose destruction of the old key version was refused (result: %v; primary %q -> %q), the next rotation makes %q primary, a key version that existed before it: key-version names are reused", caKind, r1, p0, p1, p2), nil)
+				}
+			}
+		}
+		for n, c := range certs1 {
+			if c != nil && n != "" {
+				if now := certOf(n); now != nil && !bytes.Equal(now, c) {
+					run.Violation("clobber:gcpkms:after-refused-destroy", fmt.Sprintf("Cloud KMS key manager with %s: the certificate on record for key version %q changed during a later rotation that had no overwrite permission", caKind, n), nil)
+				}
+			}
+		}
+		a.Close()
+	}
 	// code -> spec: the recorded executions of the complete histories (storage-backed combination over
 	// the in-memory storage double) must be behaviours of KeyAuthority.tla
 	if len(traces) > 0 {
